@@ -79,6 +79,10 @@ func New(kind, tmpRoot string, opts ...gofakes3.Option) (*Instance, error) {
 // instead of the fixed one; the front end keeps the fixed time source.
 var BackendTimeSource gofakes3.TimeSource
 
+// FrontTimeSource, when set, is handed to gofakes3.New (handlers and the multipart uploader)
+// instead of the fixed one.
+var FrontTimeSource gofakes3.TimeSource
+
 func (inst *Instance) open() error {
 	ts := gofakes3.FixedTimeSource(FixedTime)
 	bts := gofakes3.TimeSource(ts)
@@ -143,7 +147,11 @@ func (inst *Instance) open() error {
 	default:
 		return fmt.Errorf("unknown backend kind %q", inst.Kind)
 	}
-	all := append([]gofakes3.Option{gofakes3.WithTimeSource(ts), gofakes3.WithTimeSkewLimit(0)}, inst.opts...)
+	fts := gofakes3.TimeSource(ts)
+	if FrontTimeSource != nil {
+		fts = FrontTimeSource
+	}
+	all := append([]gofakes3.Option{gofakes3.WithTimeSource(fts), gofakes3.WithTimeSkewLimit(0)}, inst.opts...)
 	inst.G = gofakes3.New(inst.Backend, all...)
 	inst.H = inst.G.Server()
 	return nil
